@@ -82,7 +82,7 @@ def cases(draw, tier="quick"):
         samples.append(s)
     opts = {"fw": draw(st.sampled_from(["attrs", "dataclasses"])), "pic": draw(st.sampled_from([True, True, False])),
             "sreg": list(names), "meta": draw(st.booleans()), "dkr": [r"n_\d+"], "dkf": [],
-            "max_literals": draw(st.sampled_from([10, 0])), "nested": False}
+            "max_literals": draw(st.sampled_from([10, 0])), "nested": False, "slots": draw(st.sampled_from([False, False, True]))}
     return {"samples": samples, "opts": opts}
 
 
